@@ -274,9 +274,33 @@ type gMqConn struct {
 	onWrite func([]byte)
 	onClose func()
 	once    sync.Once
+	// a stalled broker (event `mqstall`): nothing can be written any more, every Write runs into its deadline
+	smu     sync.Mutex
+	stalled bool
+	wd      time.Time
+}
+
+func (c *gMqConn) SetWriteDeadline(t time.Time) error {
+	c.smu.Lock()
+	c.wd = t
+	c.smu.Unlock()
+	return nil
 }
 
 func (c *gMqConn) Write(b []byte) (int, error) {
+	c.smu.Lock()
+	stalled, wd := c.stalled, c.wd
+	c.smu.Unlock()
+	if stalled {
+		d := time.Until(wd)
+		if wd.IsZero() {
+			d = time.Hour
+		}
+		if d > 0 {
+			time.Sleep(d)
+		}
+		return 0, os.ErrDeadlineExceeded
+	}
 	c.onWrite(b)
 	return len(b), nil
 }
@@ -517,6 +541,10 @@ func gRunCase(t *testing.T, c *gCase) []string {
 					brokerSide.SetWriteDeadline(time.Now().Add(50 * time.Millisecond))
 					brokerSide.Write(gunhex(fs[2]))
 				}
+			case "mqstall":
+				mqc.smu.Lock()
+				mqc.stalled = true
+				mqc.smu.Unlock()
 			case "mqeof":
 				brokerSide.Close()
 			case "shutdown":
